@@ -64,24 +64,29 @@ func (pq *pqList) Insert(id interface{}, expireAt time.Time) {
 	pq.insert(id, expireAt)
 }
 func (pq *pqList) insert(id interface{}, expireAt time.Time) {
-	pq.mtx.RLock()
 	deadline := expireAt.Round(time.Second)
+	pq.mtx.RLock()
 	elt, ok := pq.buckets[deadline]
+	if ok {
+		// the read lock is kept while the bucket is filled: Expire, which takes the write lock,
+		// can then neither read a bucket that is being appended to nor pop it in between
+		elt.put(id, expireAt)
+		pq.mtx.RUnlock()
+		return
+	}
 	pq.mtx.RUnlock()
-	if !ok {
-		pq.mtx.Lock()
-		defer pq.mtx.Unlock()
-		if elt, ok = pq.buckets[deadline]; !ok {
-			elt = &bucket{
-				data: []item{
-					{value: id, deadline: expireAt},
-				},
-				deadline: deadline,
-			}
-			pq.buckets[deadline] = elt
-			heap.Push(&pq.pq, elt)
-			return
+	pq.mtx.Lock()
+	defer pq.mtx.Unlock()
+	if elt, ok = pq.buckets[deadline]; !ok {
+		elt = &bucket{
+			data: []item{
+				{value: id, deadline: expireAt},
+			},
+			deadline: deadline,
 		}
+		pq.buckets[deadline] = elt
+		heap.Push(&pq.pq, elt)
+		return
 	}
 	elt.put(id, expireAt)
 }
